@@ -138,7 +138,7 @@ func (w *watcher) maxActive() (int, int) {
 // ---------------------------------------------------------------- A. TraditionalDnsConn state machine
 
 type Op struct {
-	K string `json:"k"` // reserve | exchange | withdraw | reply | cancel | probe
+	K string `json:"k"` // reserve | exchange | withdraw | reply | cancel | probe | conprobe (8 goroutines reserve at once) | deadexchange
 	I int    `json:"i"` // index into the relevant list (mod len)
 }
 
@@ -152,7 +152,7 @@ func genConnCase(t *rapid.T) ConnCase {
 	c := ConnCase{Limit: rapid.SampledFrom([]int{1, 2, 3, 8, 64}).Draw(t, "limit"), Datagram: rapid.Bool().Draw(t, "datagram")}
 	n := rapid.IntRange(1, 60).Draw(t, "nops")
 	for i := 0; i < n; i++ {
-		k := rapid.SampledFrom([]string{"reserve", "reserve", "reserve", "exchange", "exchange", "exchange", "withdraw", "reply", "reply", "cancel", "probe", "deadexchange"}).Draw(t, "k")
+		k := rapid.SampledFrom([]string{"reserve", "reserve", "reserve", "exchange", "exchange", "exchange", "withdraw", "reply", "reply", "cancel", "probe", "conprobe", "deadexchange"}).Draw(t, "k")
 		c.Ops = append(c.Ops, Op{K: k, I: rapid.IntRange(0, 63).Draw(t, "i")})
 	}
 	return c
@@ -283,6 +283,42 @@ func runConnCase(c ConnCase, ctx *hx.Ctx) *hx.Failure {
 				flying[i].cancel()
 				endCall(i)
 			}
+		case "conprobe":
+			// eight callers reserve at the same moment: together they get exactly the free slots, never more
+			var mu sync.Mutex
+			var got []transport.ReservedExchanger
+			var wg sync.WaitGroup
+			startAll := make(chan struct{})
+			for g := 0; g < 8; g++ {
+				wg.Add(1)
+				go func() {
+					defer wg.Done()
+					<-startAll
+					for k := 0; k < c.Limit+2; k++ {
+						rx, _ := dc.ReserveNewQuery()
+						if rx == nil {
+							return
+						}
+						mu.Lock()
+						got = append(got, rx)
+						mu.Unlock()
+					}
+				}()
+			}
+			close(startAll)
+			wg.Wait()
+			for _, rx := range got {
+				rx.WithdrawReserved()
+			}
+			want := c.Limit - len(held) - len(flying)
+			if len(got) != want {
+				sig := "C09/capacity-leaked"
+				if len(got) > want {
+					sig = "C09/admitted-above-limit"
+				}
+				return hx.Failf(sig, "limit %d, %d unanswered, %d reserved: 8 concurrent callers were admitted %d more queries in total, expected %d", c.Limit, len(flying), len(held), len(got), want)
+			}
+			ctx.Class("concurrent-reservations")
 		case "probe":
 			// how many more does it admit right now?
 			var got []transport.ReservedExchanger
